@@ -17,10 +17,18 @@
 EXTENDS Integers, Sequences, FiniteSets, TLC
 
 (* ---- shape of the configured class (harness/props/c10.py : CfgMod) ---- *)
-Params == {"a", "b", "n"}
+(* s / l / k : string / array / blob, their limits are LENGTHS (minchars/maxchars, minlen/maxlen,  *)
+(* minbytes/maxbytes, written "min"/"max" here); for these datatypes already the conversion       *)
+(* looks at the limits, so the ORDER in which a Param's entries are applied matters: the value    *)
+(* is judged against the datatype with the configured overrides applied.                          *)
+Params == {"a", "b", "n", "s", "l", "k"}
 PInfo == [a |-> [ty |-> "float", lo |-> 0, hi |-> 200, write |-> TRUE,  needscfg |-> FALSE],
           b |-> [ty |-> "int",   lo |-> 0, hi |-> 20,  write |-> FALSE, needscfg |-> FALSE],
-          n |-> [ty |-> "float", lo |-> 0, hi |-> 200, write |-> TRUE,  needscfg |-> TRUE]]
+          n |-> [ty |-> "float", lo |-> 0, hi |-> 200, write |-> TRUE,  needscfg |-> TRUE],
+          s |-> [ty |-> "str",   lo |-> 0, hi |-> 16,  write |-> TRUE,  needscfg |-> FALSE],
+          l |-> [ty |-> "tuple", lo |-> 0, hi |-> 6,   write |-> FALSE, needscfg |-> FALSE],
+          k |-> [ty |-> "bytes", lo |-> 0, hi |-> 8,   write |-> FALSE, needscfg |-> FALSE]]
+LimTy(p) == IF PInfo[p].ty \in {"float", "int"} THEN PInfo[p].ty ELSE "int"     \* type of the limits of p
 ModProps == {"mp", "op"}
 MInfo == [mp |-> [ty |-> "int",   lo |-> 0, hi |-> 10, mandatory |-> TRUE],
           op |-> [ty |-> "float", lo |-> 0, hi |-> 20, mandatory |-> FALSE]]
@@ -34,14 +42,18 @@ ParProps == {"value", "visibility", "readonly", "export"}                       
 (* form "B" = bare value (Mod(..., a=5)), "P" = Param(...).  A configuration is a set of entries     *)
 (* with pairwise different (par, prop).                                                              *)
 IsNum(v) == v.ty \in {"int", "float"}
-ConvOK(ty, v) == IsNum(v) /\ (ty = "int" => v.n % 2 = 0)
+ConvOK(ty, v) == CASE ty = "float" -> IsNum(v)
+                   [] ty = "int" -> IsNum(v) /\ v.n % 2 = 0
+                   [] ty = "str" -> v.ty = "str"
+                   [] ty = "tuple" -> v.ty = "list"          \* an array is stored as a tuple
+                   [] ty = "bytes" -> v.ty = "bytes"
 Conv(ty, v) == [ty |-> ty, n |-> v.n]            \* the configured value converted to the datatype
 
 Has(cfg, par, prop) == \E e \in cfg : e.par = par /\ e.prop = prop
 Get(cfg, par, prop) == (CHOOSE e \in cfg : e.par = par /\ e.prop = prop).v
 
-EffLo(cfg, p) == IF Has(cfg, p, "min") /\ ConvOK(PInfo[p].ty, Get(cfg, p, "min")) THEN Get(cfg, p, "min").n ELSE PInfo[p].lo
-EffHi(cfg, p) == IF Has(cfg, p, "max") /\ ConvOK(PInfo[p].ty, Get(cfg, p, "max")) THEN Get(cfg, p, "max").n ELSE PInfo[p].hi
+EffLo(cfg, p) == IF Has(cfg, p, "min") /\ ConvOK(LimTy(p), Get(cfg, p, "min")) THEN Get(cfg, p, "min").n ELSE PInfo[p].lo
+EffHi(cfg, p) == IF Has(cfg, p, "max") /\ ConvOK(LimTy(p), Get(cfg, p, "max")) THEN Get(cfg, p, "max").n ELSE PInfo[p].hi
 
 (* a configured <p>_limits pair narrows what the start-up write of p accepts *)
 HasPair(cfg, p) == \E e \in cfg : e.par = p \o "_limits" /\ e.prop = "value" /\ e.v.ty = "pair"
@@ -58,7 +70,7 @@ EntryClass(cfg, e) ==
      LET info == PInfo[e.par] IN
      CASE e.prop = "value" -> IF ~ConvOK(info.ty, e.v) THEN "wrongtype"
                               ELSE RangeClass(ValLo(cfg, e.par), ValHi(cfg, e.par), e.v.n)
-       [] e.prop \in {"min", "max"} -> IF ~ConvOK(info.ty, e.v) THEN "wrongtype"
+       [] e.prop \in {"min", "max"} -> IF ~ConvOK(LimTy(e.par), e.v) THEN "wrongtype"
                                        ELSE IF EffLo(cfg, e.par) > EffHi(cfg, e.par) THEN "inverted" ELSE "inside"
        [] e.prop = "unit" /\ "unit" \in DtProps(info.ty) -> IF e.v.ty = "str" THEN "inside" ELSE "wrongtype"
        [] e.prop = "visibility" -> IF e.v.ty = "str" /\ e.v.n \in 1 .. 3 THEN "inside" ELSE "wrongtype"
